@@ -366,12 +366,39 @@ def numeric_search(pc: Sequence[T], goal: Optional[T], vars_: Sequence[T], rng: 
                    scale=(0.1, 10.0), hints: Optional[Dict[str, float]] = None):
     """Random search for an environment with pc true and goal false (goal None: pc true)."""
     names = [(v.args[0], v.sort) for v in vars_ if v.args[0] != tm.PI_NAME]
+    # simple bounds stated in the path condition (var <= c, c <= var, ...) narrow the sampling box
+    lo_b: Dict[str, float] = {}
+    hi_b: Dict[str, float] = {}
+    for c in pc:
+        neg = c.op == "not"
+        d = c.args[0] if neg else c
+        if d.op in ("le", "lt") and not neg:
+            a, b = d.args
+            if a.op == "var" and tm.is_const(b):
+                hi_b[a.args[0]] = min(hi_b.get(a.args[0], math.inf), float(tm.cval(b)))
+            elif b.op == "var" and tm.is_const(a):
+                lo_b[b.args[0]] = max(lo_b.get(b.args[0], -math.inf), float(tm.cval(a)))
+        elif d.op in ("le", "lt") and neg:
+            a, b = d.args  # not (a < b)  ==  b <= a
+            if a.op == "var" and tm.is_const(b):
+                lo_b[a.args[0]] = max(lo_b.get(a.args[0], -math.inf), float(tm.cval(b)))
+            elif b.op == "var" and tm.is_const(a):
+                hi_b[b.args[0]] = min(hi_b.get(b.args[0], math.inf), float(tm.cval(a)))
     for k in range(tries):
         env = {}
         mag = math.exp(rng.uniform(math.log(scale[0]), math.log(scale[1])))
         for n, s in names:
+            lo, hi = lo_b.get(n, -math.inf), hi_b.get(n, math.inf)
             if s == "I":
-                env[n] = rng.randint(-3, 8)
+                a_ = int(math.ceil(lo)) if lo > -math.inf else -3
+                b_ = int(math.floor(hi)) if hi < math.inf else max(a_, 8)
+                env[n] = rng.randint(a_, max(a_, b_))
+            elif lo > -math.inf and hi < math.inf:
+                env[n] = rng.uniform(lo, hi)
+            elif lo > -math.inf:
+                env[n] = lo + rng.random() * mag
+            elif hi < math.inf:
+                env[n] = hi - rng.random() * mag
             else:
                 env[n] = rng.uniform(-1, 1) * mag
         if hints and k % 2 == 0:
